@@ -105,7 +105,7 @@ def _flat(arr, dt):
 
 # ------------------------------------------------------------------------------------- strategies
 _shape = st.sampled_from([0, 1, 1, 2, 2, 3]).flatmap(
-    lambda r: st.lists(st.sampled_from([0, 1, 1, 2, 2, 3, 3]), min_size=r, max_size=r))
+    lambda r: st.lists(st.sampled_from([1, 1, 2, 2, 3, 3, 0]), min_size=r, max_size=r))  # shrinks towards 1
 _name = st.sampled_from(NAMES)
 
 
@@ -980,11 +980,11 @@ def check_values(E, s, d, values, real=None, tag=""):
             E.nontrivial.append(("value", d, v))
             E.counts["value_bound_adjacent"] += 1
         if ok and not accepted:
-            E.fail("validate.accepts_members", f"{kind}:{cls}:{type(err).__name__}",
+            E.fail("validate.accepts_members", f"{kind}:{_family(cls)}",
                    f"{tag}value is a member (shape, dtype, bounds all fine) but validate raised "
                    f"{type(err).__name__}: {str(err)[:300]}\n  spec={s!r}\n  value={_short(v)}")
         if not ok and accepted:
-            E.fail("validate.rejects_nonmembers", f"{kind}:{cls}:{why.split('/')[-1]}",
+            E.fail("validate.rejects_nonmembers", f"{kind}:{why.split('/')[-1]}:{_family(cls)}",
                    f"{tag}value is not a member ({why}) but validate accepted it\n  spec={s!r}\n  value={_short(v)}")
         if not ok:
             continue
@@ -996,7 +996,7 @@ def check_values(E, s, d, values, real=None, tag=""):
             except Exception as e:  # noqa: BLE001
                 inside = f"raised {type(e).__name__}: {e}"
             if inside is not True:
-                E.fail("convert.gym", f"member_not_contained:{kind}:{cls}",
+                E.fail("convert.gym", f"member_not_contained:{kind}:{_family(cls)}",
                        f"{tag}member value not in converted gym space {gym_space!r} (contains -> {inside})\n"
                        f"  spec={s!r}\n  value={_short(v)}")
         if dm_spec is not None:
@@ -1004,7 +1004,7 @@ def check_values(E, s, d, values, real=None, tag=""):
             try:
                 _dm_validate(dm_spec, xt)
             except Exception as e:  # noqa: BLE001
-                E.fail("convert.dm_env", f"member_rejected:{kind}:{cls}",
+                E.fail("convert.dm_env", f"member_rejected:{kind}:{_family(cls)}",
                        f"{tag}member value rejected by converted dm_env spec {dm_spec!r}: {type(e).__name__}: "
                        f"{str(e)[:300]}\n  spec={s!r}\n  value={_short(v)}")
     return gym_space
@@ -1028,6 +1028,24 @@ def _value_class(v):
         if c != "rand":
             best = c
     return best
+
+
+def _family(cls):
+    """Coarse family of a value class, used in failure signatures (the exact class is in the message)."""
+    for key in ("out_min", "out_max", "f64_out"):
+        if cls.startswith(key):
+            return "beyond_max" if key != "out_min" else "beyond_min"
+    if cls in ("all_max", "at_max", "in_max", "f64_in") or cls.startswith("in_max"):
+        return "at_or_near_max"
+    if cls in ("all_min", "at_min", "in_min") or cls.startswith("in_min"):
+        return "at_or_near_min"
+    if cls.startswith("shape"):
+        return "shape"
+    if cls.startswith("struct"):
+        return "structure"
+    if cls in ("dtype_other", "wide", "py"):
+        return "dtype_or_container"
+    return "interior"
 
 
 def _is_adjacent(v):
@@ -1469,7 +1487,16 @@ def replay(case):
     return [{"env": env, "oracle": o, "sig": s, "msg": m} for o, s, m in E.fails]
 
 
+MAX_SHRINKS = 6
+_shrinks = {"n": 0}
+
+
 def shrink(fl):
+    # a defect can surface in many buckets; only the first few (in the runner's sorted order) are
+    # minimised, the others keep the smallest case seen during the campaign
+    _shrinks["n"] += 1
+    if _shrinks["n"] > MAX_SHRINKS:
+        return fl
     case = fl["case"]
     kind, args = case["kind"], case["args"]
     if kind == "env" and not args.get("values"):
